@@ -710,3 +710,148 @@ parse_attrs! { fn c15_parse_simple_not_an_instruction() {
     core::mem::forget(got);
     core::mem::forget(p);
 }}
+
+// ------------------------------------------------------------------ C01 H-directives: preprocess()
+// preprocess() is driven with `Cursor::advance_real` replaced by a queue of tokens (lexing is decided by the
+// lexer harnesses): .fill v -> one word v; .blkw n -> n zero words; .stringz "..." -> code points + 0 (the
+// string text is sliced out of the real source); .break -> a Breakpoint token; .end stops; comments vanish.
+static mut PRE_QUEUE: [Option<Token>; 4] = [None; 4];
+static mut PRE_POS: usize = 0;
+impl<'s> Cursor<'s> {
+    fn advance_real_from_queue(&mut self) -> Result<Token> {
+        unsafe {
+            let t = if PRE_POS < 4 { PRE_QUEUE[PRE_POS] } else { None };
+            PRE_POS += 1;
+            Ok(t.unwrap_or(Token::new(TokenKind::Eof, Span::dummy())))
+        }
+    }
+}
+fn queue(toks: [Option<Token>; 4]) {
+    unsafe {
+        PRE_QUEUE = toks;
+        PRE_POS = 0;
+    }
+}
+fn bad_lit_contract(span: Span, src: &'static str, _present: bool) -> miette::Report {
+    assert!(span.offs() + span.len() <= src.len(), "diagnostic span outside the source");
+    miette::Report::msg("")
+}
+fn no_str_contract(span: Span, src: &'static str) -> miette::Report {
+    assert!(span.offs() + span.len() <= src.len(), "diagnostic span outside the source");
+    miette::Report::msg("")
+}
+
+macro_rules! pre_attrs {
+    ($(#[$m:meta])* fn $name:ident() $body:block) => {
+        #[kani::proof]
+        #[kani::unwind(8)]
+        #[kani::stub(alloc::fmt::format, stubs::fmt_format)]
+        #[kani::stub(Cursor::advance_real, Cursor::advance_real_from_queue)]
+        #[kani::stub(crate::error::preproc_bad_lit, bad_lit_contract)]
+        #[kani::stub(crate::error::preproc_no_str, no_str_contract)]
+        $(#[$m])*
+        fn $name() $body
+    };
+}
+
+/// `.fill <literal>`: one data word with the literal's 16-bit value, spanning directive and literal; anything
+/// else after .fill is a diagnostic
+pre_attrs! { fn c01_pre_fill() {
+    let v: u16 = kani::any();
+    let dec: bool = kani::any();
+    let lit = if dec { TokenKind::Lit(LiteralKind::Dec(v as i16)) } else { TokenKind::Lit(LiteralKind::Hex(v)) };
+    queue([Some(Token::new(TokenKind::Dir(DirKind::Fill), span_of(0, 5))), Some(Token::new(lit, span_of(6, 2))), None, None]);
+    match preprocess(".fill xx") {
+        Ok(toks) => {
+            assert!(toks.len() == 1 && toks[0].kind == TokenKind::Byte(v), ".fill does not produce exactly its value");
+            assert!(toks[0].span.offs() == 0 && toks[0].span.end() == 8, ".fill span is not directive + literal");
+            kani::cover!(v == 0xFFFF && dec);
+            core::mem::forget(toks);
+        }
+        Err(e) => {
+            core::mem::forget(e);
+            assert!(false, ".fill with a literal rejected");
+        }
+    }
+}}
+
+/// `.blkw n` (n = 0, 2 as Hex; 3 as Dec): n zero words
+macro_rules! pre_blkw {
+    ($name:ident, $lit:expr, $n:expr) => {
+        pre_attrs! { fn $name() {
+            queue([Some(Token::new(TokenKind::Dir(DirKind::Blkw), span_of(0, 5))), Some(Token::new(TokenKind::Lit($lit), span_of(6, 2))), None, None]);
+            match preprocess(".blkw xx") {
+                Ok(toks) => {
+                    assert!(toks.len() == $n, ".blkw does not reserve exactly n words");
+                    let mut i = 0;
+                    while i < $n {
+                        assert!(toks[i].kind == TokenKind::Byte(0), ".blkw word not zero");
+                        i += 1;
+                    }
+                    kani::cover!(true);
+                    core::mem::forget(toks);
+                }
+                Err(e) => {
+                    core::mem::forget(e);
+                    assert!(false, ".blkw with a literal rejected");
+                }
+            }
+        }}
+    };
+}
+pre_blkw!(c01_pre_blkw_hex0, LiteralKind::Hex(0), 0usize);
+pre_blkw!(c01_pre_blkw_hex2, LiteralKind::Hex(2), 2usize);
+pre_blkw!(c01_pre_blkw_dec3, LiteralKind::Dec(3), 3usize);
+
+/// `.stringz "a\n"`: code points of the unescaped text, then a zero word
+pre_attrs! { fn c01_pre_stringz() {
+    const SRC1: &str = ".stringz \"a\\n\""; // .stringz "a\n"  (escape sequence: backslash n)
+    queue([Some(Token::new(TokenKind::Dir(DirKind::Stringz), span_of(0, 8))), Some(Token::new(TokenKind::Lit(LiteralKind::Str), span_of(9, 5))), None, None]);
+    match preprocess(SRC1) {
+        Ok(toks) => {
+            assert!(toks.len() == 3, ".stringz does not expand to its characters plus a terminator");
+            assert!(toks[0].kind == TokenKind::Byte('a' as u16) && toks[1].kind == TokenKind::Byte(10) && toks[2].kind == TokenKind::Byte(0),
+                ".stringz words are not the unescaped code points followed by zero");
+            assert!(toks[0].span.offs() == 0 && toks[0].span.end() == 14);
+            kani::cover!(true);
+            core::mem::forget(toks);
+        }
+        Err(e) => {
+            core::mem::forget(e);
+            assert!(false, ".stringz with a string rejected");
+        }
+    }
+}}
+
+/// a data directive followed by a token that is not its operand (any kind), or by nothing: a diagnostic, no panic
+pre_attrs! { fn c05_pre_directive_wrong_operand() {
+    let which: u8 = kani::any();
+    kani::assume(which < 3);
+    let d = match which { 0 => DirKind::Fill, 1 => DirKind::Blkw, _ => DirKind::Stringz };
+    let t = any_token(8);
+    kani::assume(!matches!(t.kind, TokenKind::Lit(_)));
+    let none: bool = kani::any();
+    queue([Some(Token::new(TokenKind::Dir(d), span_of(0, 5))), if none { None } else { Some(t) }, None, None]);
+    let r = preprocess("ab cdefg");
+    assert!(r.is_err(), "data directive without its operand accepted");
+    kani::cover!(none);
+    kani::cover!(matches!(t.kind, TokenKind::Dir(_)) && !none);
+    core::mem::forget(r);
+}}
+
+/// .break becomes a Breakpoint token, .end stops the stream, comments/whitespace vanish
+pre_attrs! { fn c01_pre_break_end() {
+    queue([Some(Token::new(TokenKind::Comment, span_of(0, 1))), Some(Token::new(TokenKind::Dir(DirKind::Break), span_of(1, 2))),
+           Some(Token::new(TokenKind::Dir(DirKind::End), span_of(3, 1))), Some(Token::new(TokenKind::Label, span_of(4, 1)))]);
+    match preprocess("ab cdefg") {
+        Ok(toks) => {
+            assert!(toks.len() == 1 && toks[0].kind == TokenKind::Breakpoint, ".break/.end/comment handling wrong");
+            kani::cover!(true);
+            core::mem::forget(toks);
+        }
+        Err(e) => {
+            core::mem::forget(e);
+            assert!(false);
+        }
+    }
+}}
